@@ -338,9 +338,11 @@ Proof.
   1: { cbn in G. apply negb_false_iff in G. cbn. apply Tr_user_out; auto. }
   3: { (* HProceedTls *)
        name_result. unfold call_handler. cases; leaf; eauto 30 with trdb.
-       - destruct (Tr_conn_tls_start_ok _ _ _ H Heqb) as [T ->].
+       - match goal with Hs : snd (conn_tls_start s) = true |- _ =>
+           destruct (Tr_conn_tls_start_ok _ _ _ H Hs) as [T ->] end.
          apply Tr_tls; [apply Rst_open_reset | eauto 30 with trdb].
-       - pose proof (Tr_conn_tls_start_fail _ _ _ H Heqb). eauto 30 with trdb. }
+       - match goal with Hs : snd (conn_tls_start s) = false |- _ =>
+           pose proof (Tr_conn_tls_start_fail _ _ _ H Hs) end. eauto 30 with trdb. }
   all: name_result; unfold call_handler, ret; cases; leaf; eauto 30 with trdb.
 Qed.
 #[export] Hint Resolve Tr_call_handler : trdb.
@@ -350,13 +352,17 @@ Proof. intros k; destruct k; intros; name_result; unfold call_id_handler, ret; c
 Lemma Tr_note_rx : forall e s0 s o, Tr s0 s o -> Tr s0 (note_rx e s) o.
 Proof. intros; eapply Tr_state; [eassumption | apply Fr_note_rx; apply Fr_refl | unfold note_rx; exact (fun h => h)]. Qed.
 #[export] Hint Resolve Tr_note_rx : trdb.
-Lemma Tr_visit : forall n e s0 r k, Tr s0 (fst r) (snd r) -> Tr s0 (fst (visit n e r k)) (snd (visit n e r k)).
+Lemma Tr_visit : forall n e s0 p r k, Tr s0 (fst r) (p ++ snd r) -> Tr s0 (fst (visit n e r k)) (p ++ snd (visit n e r k)).
 Proof.
-  intros n e s0 [s o] k H. cbn [fst snd] in H. name_result. unfold visit. cases; leaf; eauto 30 with trdb.
+  intros n e s0 p [s o] k H. cbn [fst snd] in H. name_result. unfold visit. cases; leaf; eauto 30 with trdb.
 Qed.
-Lemma Tr_fold_visit : forall n e l s0 r, Tr s0 (fst r) (snd r) ->
-  Tr s0 (fst (fold_left (visit n e) l r)) (snd (fold_left (visit n e) l r)).
-Proof. intros n e l s0. apply (fold_left_inv (fun r => Tr s0 (fst r) (snd r))). intros; apply Tr_visit; auto. Qed.
+Lemma Tr_fold_visit : forall n e l s0 p r, Tr s0 (fst r) (p ++ snd r) ->
+  Tr s0 (fst (fold_left (visit n e) l r)) (p ++ snd (fold_left (visit n e) l r)).
+Proof. intros n e l s0 p. apply (fold_left_inv (fun r => Tr s0 (fst r) (p ++ snd r))). intros; apply Tr_visit; auto. Qed.
+Lemma Tr_fold_visit_pair : forall n e l s0 p s o, Tr s0 s (p ++ o) ->
+  Tr s0 (fst (fold_left (visit n e) l (s, o))) (p ++ snd (fold_left (visit n e) l (s, o))).
+Proof. intros; apply Tr_fold_visit; assumption. Qed.
+#[export] Hint Resolve Tr_fold_visit_pair : trdb.
 Lemma Tr_sm_handle : forall e s0 s o, Tr s0 s o -> Tr s0 (sm_handle e s) o.
 Proof. intros; unfold sm_handle, ret; cases; leaf; eauto 30 with trdb. Qed.
 #[export] Hint Resolve Tr_sm_handle : trdb.
@@ -386,19 +392,969 @@ Proof.
   all: name_result; unfold call_timed, ret; cases; leaf; eauto 30 with trdb.
 Qed.
 #[export] Hint Resolve Tr_call_timed : trdb.
-Lemma Tr_visit_timed : forall n s0 r k, Tr s0 (fst r) (snd r) -> Tr s0 (fst (visit_timed n r k)) (snd (visit_timed n r k)).
+Lemma Tr_visit_timed : forall n s0 p r k, Tr s0 (fst r) (p ++ snd r) -> Tr s0 (fst (visit_timed n r k)) (p ++ snd (visit_timed n r k)).
 Proof.
-  intros n s0 [s o] k H. cbn [fst snd] in H. name_result. unfold visit_timed. cases; leaf; eauto 30 with trdb.
+  intros n s0 p [s o] k H. cbn [fst snd] in H. name_result. unfold visit_timed. cases; leaf; eauto 30 with trdb.
 Qed.
-Lemma Tr_fold_visit_timed : forall n l s0 r, Tr s0 (fst r) (snd r) ->
-  Tr s0 (fst (fold_left (visit_timed n) l r)) (snd (fold_left (visit_timed n) l r)).
-Proof. intros n l s0. apply (fold_left_inv (fun r => Tr s0 (fst r) (snd r))). intros; apply Tr_visit_timed; auto. Qed.
+Lemma Tr_fold_visit_timed : forall n l s0 p r, Tr s0 (fst r) (p ++ snd r) ->
+  Tr s0 (fst (fold_left (visit_timed n) l r)) (p ++ snd (fold_left (visit_timed n) l r)).
+Proof. intros n l s0 p. apply (fold_left_inv (fun r => Tr s0 (fst r) (p ++ snd r))). intros; apply Tr_visit_timed; auto. Qed.
+Lemma Tr_fold_visit_timed_pair : forall n l s0 p s o, Tr s0 s (p ++ o) ->
+  Tr s0 (fst (fold_left (visit_timed n) l (s, o))) (p ++ snd (fold_left (visit_timed n) l (s, o))).
+Proof. intros; apply Tr_fold_visit_timed; assumption. Qed.
+#[export] Hint Resolve Tr_fold_visit_timed_pair : trdb.
 Lemma Tr_fire_timed : forall n s0 s o, Tr s0 s o -> Tr s0 (fst (fire_timed n s)) (o ++ (snd (fire_timed n s))).
 Proof. intros; name_result; unfold fire_timed, ret; cases; leaf; eauto 30 with trdb. Qed.
 #[export] Hint Resolve Tr_fire_timed : trdb.
-Lemma Tr_connect_next : forall n s0 s o, Tr s0 s o -> Tr s0 (fst (fst (connect_next n s))) (o ++ (snd (fst (connect_next n s)))).
-Proof. intros; name_result; unfold connect_next, ret; cases; leaf; eauto 30 with trdb. Qed.
+Lemma quiet_sock_connect : forall c, forallb quiet (fst (sock_connect c)) = true.
+Proof.
+  induction c as [|k c IH]; [reflexivity|]. destruct k; cbn [sock_connect]; try reflexivity.
+  destruct (sock_connect c); cbn in *; auto.
+Qed.
+Lemma Tr_connect_next : forall n s0 s o, Tr s0 s o -> Tr s0 (fst (fst (connect_next n s))) (o ++ snd (fst (connect_next n s))).
+Proof.
+  intros. name_result. unfold connect_next. pose proof (quiet_sock_connect (cands s)) as Q.
+  destruct (sock_connect (cands s)) as [oo [[k r]|]]; cbn [fst] in Q; leaf;
+    (apply Tr_quiet; [eauto 30 with trdb | cbn; exact Q]).
+Qed.
 #[export] Hint Resolve Tr_connect_next : trdb.
-Lemma Tr_conn_established : forall n s0 s o, Tr s0 s o -> Tr s0 (fst (conn_established n s)) (o ++ (snd (conn_established n s))).
-Proof. intros; name_result; unfold conn_established, ret; cases; leaf; eauto 30 with trdb. Qed.
+Lemma Rst_legacy : forall s, f_legacy_ssl s = true -> Rst s.
+Proof. intros s H _. right; left; exact H. Qed.
+Lemma Tr_legacy : forall s0 s o s', Tr s0 s o -> Tr s0 s' o -> f_legacy_ssl s = true -> f_legacy_ssl s' = true.
+Proof. intros s0 s o s' [] [] H. destruct tr_fr0, tr_fr1. congruence. Qed.
+Lemma Tr_conn_established : forall n s0 s o, Tr s0 s o -> Tr s0 (fst (conn_established n s)) (o ++ snd (conn_established n s)).
+Proof.
+  intros n s0 s o H. name_result. unfold conn_established.
+  destruct (f_legacy_ssl s && negb (is_raw s)) eqn:L.
+  - apply andb_prop in L. destruct L as [L _].
+    destruct (snd (conn_tls_start s)) eqn:OK.
+    + destruct (Tr_conn_tls_start_ok _ _ _ H OK) as [T E].
+      destruct (conn_tls_start s) as [[sa oa] ok]. cbn [fst snd] in *. subst ok oa. cbn [negb].
+      cases; leaf.
+      * apply Tr_assoc. apply Tr_conn; [reflexivity|].
+        assert (T' : Tr s0 (timed_reset_all n sa) o) by eauto with trdb.
+        apply Tr_tls; auto. apply Rst_legacy. exact (Tr_legacy _ _ _ _ H T' L).
+      * assert (T' : Tr s0 (conn_open_stream sa) o) by eauto with trdb.
+        apply Tr_tls; auto. apply Rst_legacy. exact (Tr_legacy _ _ _ _ H T' L).
+    + pose proof (Tr_conn_tls_start_fail _ _ _ H OK) as T.
+      destruct (conn_tls_start s) as [[sa oa] ok]. cbn [fst snd] in *. subst ok. cbn [negb].
+      cases; leaf. eauto 30 with trdb.
+  - cbn [negb]. cases; leaf; eauto 30 with trdb.
+Qed.
 #[export] Hint Resolve Tr_conn_established : trdb.
+
+(* ================================================================== U2: nothing is queued while connecting *)
+Definition U2 (s : state) : Prop := st s = Connecting -> sendq s = [].
+
+Lemma U2_set_f_tls_disabled : forall v s, U2 s -> U2 (set_f_tls_disabled v s).
+Proof. intros v []; exact (fun h => h). Qed.
+#[export] Hint Resolve U2_set_f_tls_disabled : u2db.
+Lemma U2_set_f_tls_mandatory : forall v s, U2 s -> U2 (set_f_tls_mandatory v s).
+Proof. intros v []; exact (fun h => h). Qed.
+#[export] Hint Resolve U2_set_f_tls_mandatory : u2db.
+Lemma U2_set_f_legacy_ssl : forall v s, U2 s -> U2 (set_f_legacy_ssl v s).
+Proof. intros v []; exact (fun h => h). Qed.
+#[export] Hint Resolve U2_set_f_legacy_ssl : u2db.
+Lemma U2_set_f_tls_trust : forall v s, U2 s -> U2 (set_f_tls_trust v s).
+Proof. intros v []; exact (fun h => h). Qed.
+#[export] Hint Resolve U2_set_f_tls_trust : u2db.
+Lemma U2_set_f_legacy_auth : forall v s, U2 s -> U2 (set_f_legacy_auth v s).
+Proof. intros v []; exact (fun h => h). Qed.
+#[export] Hint Resolve U2_set_f_legacy_auth : u2db.
+Lemma U2_set_f_sm_disable : forall v s, U2 s -> U2 (set_f_sm_disable v s).
+Proof. intros v []; exact (fun h => h). Qed.
+#[export] Hint Resolve U2_set_f_sm_disable : u2db.
+Lemma U2_set_f_comp_allowed : forall v s, U2 s -> U2 (set_f_comp_allowed v s).
+Proof. intros v []; exact (fun h => h). Qed.
+#[export] Hint Resolve U2_set_f_comp_allowed : u2db.
+Lemma U2_set_f_comp_dont_reset : forall v s, U2 s -> U2 (set_f_comp_dont_reset v s).
+Proof. intros v []; exact (fun h => h). Qed.
+#[export] Hint Resolve U2_set_f_comp_dont_reset : u2db.
+Lemma U2_set_jid_set : forall v s, U2 s -> U2 (set_jid_set v s).
+Proof. intros v []; exact (fun h => h). Qed.
+#[export] Hint Resolve U2_set_jid_set : u2db.
+Lemma U2_set_jid_node : forall v s, U2 s -> U2 (set_jid_node v s).
+Proof. intros v []; exact (fun h => h). Qed.
+#[export] Hint Resolve U2_set_jid_node : u2db.
+Lemma U2_set_jid_res : forall v s, U2 s -> U2 (set_jid_res v s).
+Proof. intros v []; exact (fun h => h). Qed.
+#[export] Hint Resolve U2_set_jid_res : u2db.
+Lemma U2_set_pass_set : forall v s, U2 s -> U2 (set_pass_set v s).
+Proof. intros v []; exact (fun h => h). Qed.
+#[export] Hint Resolve U2_set_pass_set : u2db.
+Lemma U2_set_cert_set : forall v s, U2 s -> U2 (set_cert_set v s).
+Proof. intros v []; exact (fun h => h). Qed.
+#[export] Hint Resolve U2_set_cert_set : u2db.
+Lemma U2_set_is_raw : forall v s, U2 s -> U2 (set_is_raw v s).
+Proof. intros v []; exact (fun h => h). Qed.
+#[export] Hint Resolve U2_set_is_raw : u2db.
+Lemma U2_set_typ : forall v s, U2 s -> U2 (set_typ v s).
+Proof. intros v []; exact (fun h => h). Qed.
+#[export] Hint Resolve U2_set_typ : u2db.
+Lemma U2_set_user_handler : forall v s, U2 s -> U2 (set_user_handler v s).
+Proof. intros v []; exact (fun h => h). Qed.
+#[export] Hint Resolve U2_set_user_handler : u2db.
+Lemma U2_set_user_timed : forall v s, U2 s -> U2 (set_user_timed v s).
+Proof. intros v []; exact (fun h => h). Qed.
+#[export] Hint Resolve U2_set_user_timed : u2db.
+Lemma U2_set_tlsnew_ok : forall v s, U2 s -> U2 (set_tlsnew_ok v s).
+Proof. intros v []; exact (fun h => h). Qed.
+#[export] Hint Resolve U2_set_tlsnew_ok : u2db.
+Lemma U2_set_cb_avail : forall v s, U2 s -> U2 (set_cb_avail v s).
+Proof. intros v []; exact (fun h => h). Qed.
+#[export] Hint Resolve U2_set_cb_avail : u2db.
+Lemma U2_set_tls_verdicts : forall v s, U2 s -> U2 (set_tls_verdicts v s).
+Proof. intros v []; exact (fun h => h). Qed.
+#[export] Hint Resolve U2_set_tls_verdicts : u2db.
+Lemma U2_set_next_cands : forall v s, U2 s -> U2 (set_next_cands v s).
+Proof. intros v []; exact (fun h => h). Qed.
+#[export] Hint Resolve U2_set_next_cands : u2db.
+Lemma U2_set_cands : forall v s, U2 s -> U2 (set_cands v s).
+Proof. intros v []; exact (fun h => h). Qed.
+#[export] Hint Resolve U2_set_cands : u2db.
+Lemma U2_set_cur_ep : forall v s, U2 s -> U2 (set_cur_ep v s).
+Proof. intros v []; exact (fun h => h). Qed.
+#[export] Hint Resolve U2_set_cur_ep : u2db.
+Lemma U2_set_stamp : forall v s, U2 s -> U2 (set_stamp v s).
+Proof. intros v []; exact (fun h => h). Qed.
+#[export] Hint Resolve U2_set_stamp : u2db.
+Lemma U2_set_err : forall v s, U2 s -> U2 (set_err v s).
+Proof. intros v []; exact (fun h => h). Qed.
+#[export] Hint Resolve U2_set_err : u2db.
+Lemma U2_set_stream_error : forall v s, U2 s -> U2 (set_stream_error v s).
+Proof. intros v []; exact (fun h => h). Qed.
+#[export] Hint Resolve U2_set_stream_error : u2db.
+Lemma U2_set_secured : forall v s, U2 s -> U2 (set_secured v s).
+Proof. intros v []; exact (fun h => h). Qed.
+#[export] Hint Resolve U2_set_secured : u2db.
+Lemma U2_set_tls_present : forall v s, U2 s -> U2 (set_tls_present v s).
+Proof. intros v []; exact (fun h => h). Qed.
+#[export] Hint Resolve U2_set_tls_present : u2db.
+Lemma U2_set_tls_failed : forall v s, U2 s -> U2 (set_tls_failed v s).
+Proof. intros v []; exact (fun h => h). Qed.
+#[export] Hint Resolve U2_set_tls_failed : u2db.
+Lemma U2_set_tls_support : forall v s, U2 s -> U2 (set_tls_support v s).
+Proof. intros v []; exact (fun h => h). Qed.
+#[export] Hint Resolve U2_set_tls_support : u2db.
+Lemma U2_set_sasl : forall v s, U2 s -> U2 (set_sasl v s).
+Proof. intros v []; exact (fun h => h). Qed.
+#[export] Hint Resolve U2_set_sasl : u2db.
+Lemma U2_set_bind_required : forall v s, U2 s -> U2 (set_bind_required v s).
+Proof. intros v []; exact (fun h => h). Qed.
+#[export] Hint Resolve U2_set_bind_required : u2db.
+Lemma U2_set_session_required : forall v s, U2 s -> U2 (set_session_required v s).
+Proof. intros v []; exact (fun h => h). Qed.
+#[export] Hint Resolve U2_set_session_required : u2db.
+Lemma U2_set_comp_supported : forall v s, U2 s -> U2 (set_comp_supported v s).
+Proof. intros v []; exact (fun h => h). Qed.
+#[export] Hint Resolve U2_set_comp_supported : u2db.
+Lemma U2_set_comp_active : forall v s, U2 s -> U2 (set_comp_active v s).
+Proof. intros v []; exact (fun h => h). Qed.
+#[export] Hint Resolve U2_set_comp_active : u2db.
+Lemma U2_set_sm_alloc : forall v s, U2 s -> U2 (set_sm_alloc v s).
+Proof. intros v []; exact (fun h => h). Qed.
+#[export] Hint Resolve U2_set_sm_alloc : u2db.
+Lemma U2_set_sm_support : forall v s, U2 s -> U2 (set_sm_support v s).
+Proof. intros v []; exact (fun h => h). Qed.
+#[export] Hint Resolve U2_set_sm_support : u2db.
+Lemma U2_set_sm_enabled : forall v s, U2 s -> U2 (set_sm_enabled v s).
+Proof. intros v []; exact (fun h => h). Qed.
+#[export] Hint Resolve U2_set_sm_enabled : u2db.
+Lemma U2_set_sm_can_resume : forall v s, U2 s -> U2 (set_sm_can_resume v s).
+Proof. intros v []; exact (fun h => h). Qed.
+#[export] Hint Resolve U2_set_sm_can_resume : u2db.
+Lemma U2_set_sm_resume : forall v s, U2 s -> U2 (set_sm_resume v s).
+Proof. intros v []; exact (fun h => h). Qed.
+#[export] Hint Resolve U2_set_sm_resume : u2db.
+Lemma U2_set_sm_dont_request : forall v s, U2 s -> U2 (set_sm_dont_request v s).
+Proof. intros v []; exact (fun h => h). Qed.
+#[export] Hint Resolve U2_set_sm_dont_request : u2db.
+Lemma U2_set_sm_has_previd : forall v s, U2 s -> U2 (set_sm_has_previd v s).
+Proof. intros v []; exact (fun h => h). Qed.
+#[export] Hint Resolve U2_set_sm_has_previd : u2db.
+Lemma U2_set_sm_has_id : forall v s, U2 s -> U2 (set_sm_has_id v s).
+Proof. intros v []; exact (fun h => h). Qed.
+#[export] Hint Resolve U2_set_sm_has_id : u2db.
+Lemma U2_set_sm_parked : forall v s, U2 s -> U2 (set_sm_parked v s).
+Proof. intros v []; exact (fun h => h). Qed.
+#[export] Hint Resolve U2_set_sm_parked : u2db.
+Lemma U2_set_sm_r_sent : forall v s, U2 s -> U2 (set_sm_r_sent v s).
+Proof. intros v []; exact (fun h => h). Qed.
+#[export] Hint Resolve U2_set_sm_r_sent : u2db.
+Lemma U2_set_sm_bind_saved : forall v s, U2 s -> U2 (set_sm_bind_saved v s).
+Proof. intros v []; exact (fun h => h). Qed.
+#[export] Hint Resolve U2_set_sm_bind_saved : u2db.
+Lemma U2_set_bound_jid : forall v s, U2 s -> U2 (set_bound_jid v s).
+Proof. intros v []; exact (fun h => h). Qed.
+#[export] Hint Resolve U2_set_bound_jid : u2db.
+Lemma U2_set_stream_id : forall v s, U2 s -> U2 (set_stream_id v s).
+Proof. intros v []; exact (fun h => h). Qed.
+#[export] Hint Resolve U2_set_stream_id : u2db.
+Lemma U2_set_neg_done : forall v s, U2 s -> U2 (set_neg_done v s).
+Proof. intros v []; exact (fun h => h). Qed.
+#[export] Hint Resolve U2_set_neg_done : u2db.
+Lemma U2_set_reset_parser : forall v s, U2 s -> U2 (set_reset_parser v s).
+Proof. intros v []; exact (fun h => h). Qed.
+#[export] Hint Resolve U2_set_reset_parser : u2db.
+Lemma U2_set_oh : forall v s, U2 s -> U2 (set_oh v s).
+Proof. intros v []; exact (fun h => h). Qed.
+#[export] Hint Resolve U2_set_oh : u2db.
+Lemma U2_set_ps : forall v s, U2 s -> U2 (set_ps v s).
+Proof. intros v []; exact (fun h => h). Qed.
+#[export] Hint Resolve U2_set_ps : u2db.
+Lemma U2_set_handlers : forall v s, U2 s -> U2 (set_handlers v s).
+Proof. intros v []; exact (fun h => h). Qed.
+#[export] Hint Resolve U2_set_handlers : u2db.
+Lemma U2_set_idhandlers : forall v s, U2 s -> U2 (set_idhandlers v s).
+Proof. intros v []; exact (fun h => h). Qed.
+#[export] Hint Resolve U2_set_idhandlers : u2db.
+Lemma U2_set_timed : forall v s, U2 s -> U2 (set_timed v s).
+Proof. intros v []; exact (fun h => h). Qed.
+#[export] Hint Resolve U2_set_timed : u2db.
+Lemma U2_set_rxq : forall v s, U2 s -> U2 (set_rxq v s).
+Proof. intros v []; exact (fun h => h). Qed.
+#[export] Hint Resolve U2_set_rxq : u2db.
+Lemma U2_set_smq : forall v s, U2 s -> U2 (set_smq v s).
+Proof. intros v []; exact (fun h => h). Qed.
+#[export] Hint Resolve U2_set_smq : u2db.
+Lemma U2_set_sm_sent : forall v s, U2 s -> U2 (set_sm_sent v s).
+Proof. intros v []; exact (fun h => h). Qed.
+#[export] Hint Resolve U2_set_sm_sent : u2db.
+Lemma U2_set_scram_serial : forall v s, U2 s -> U2 (set_scram_serial v s).
+Proof. intros v []; exact (fun h => h). Qed.
+#[export] Hint Resolve U2_set_scram_serial : u2db.
+Lemma U2_set_crashed : forall v s, U2 s -> U2 (set_crashed v s).
+Proof. intros v []; exact (fun h => h). Qed.
+#[export] Hint Resolve U2_set_crashed : u2db.
+Lemma U2_set_gh : forall v s, U2 s -> U2 (set_gh v s).
+Proof. intros v []; exact (fun h => h). Qed.
+#[export] Hint Resolve U2_set_gh : u2db.
+Lemma U2_set_st_disc : forall s, U2 (set_st Disconnected s).
+Proof. intros [] C; cbn in C; discriminate. Qed.
+Lemma U2_upg : forall f s, U2 s -> U2 (upg f s).
+Proof. intros f []; exact (fun h => h). Qed.
+#[export] Hint Resolve U2_set_st_disc U2_upg : u2db.
+Lemma U2_q_append : forall w u sm s, st s <> Connecting -> U2 (q_append w u sm s).
+Proof. intros w u sm s H C. exfalso; apply H. revert C. unfold q_append; cases; sproj; auto. Qed.
+Lemma U2_send_gated : forall w u sm s, U2 s -> U2 (send_gated w u sm s).
+Proof.
+  intros w u sm s H. unfold send_gated, is_connected_owner. destruct (st s) eqn:E; auto.
+  cases; auto. apply U2_q_append. congruence.
+Qed.
+#[export] Hint Resolve U2_send_gated : u2db.
+Lemma U2_send_raw_m : forall w u sm s, U2 s -> U2 (send_raw_m w u sm s).
+Proof. intros w u sm s H. unfold send_raw_m. destruct (st s) eqn:E; auto. apply U2_q_append. congruence. Qed.
+#[export] Hint Resolve U2_send_raw_m : u2db.
+Lemma U2_timed_add : forall k n s, U2 s -> U2 (timed_add k n s).
+Proof. intros; unfold timed_add, ret; cases; leaf; eauto 30 with u2db. Qed.
+#[export] Hint Resolve U2_timed_add : u2db.
+Lemma U2_timed_del : forall k s, U2 s -> U2 (timed_del k s).
+Proof. intros; unfold timed_del, ret; cases; leaf; eauto 30 with u2db. Qed.
+#[export] Hint Resolve U2_timed_del : u2db.
+Lemma U2_timed_reset_all : forall n s, U2 s -> U2 (timed_reset_all n s).
+Proof. intros; unfold timed_reset_all, ret; cases; leaf; eauto 30 with u2db. Qed.
+#[export] Hint Resolve U2_timed_reset_all : u2db.
+Lemma U2_timed_set_stamp : forall k n s, U2 s -> U2 (timed_set_stamp k n s).
+Proof. intros; unfold timed_set_stamp, ret; cases; leaf; eauto 30 with u2db. Qed.
+#[export] Hint Resolve U2_timed_set_stamp : u2db.
+Lemma U2_h_add : forall k s, U2 s -> U2 (h_add k s).
+Proof. intros; unfold h_add, ret; cases; leaf; eauto 30 with u2db. Qed.
+#[export] Hint Resolve U2_h_add : u2db.
+Lemma U2_h_del : forall k s, U2 s -> U2 (h_del k s).
+Proof. intros; unfold h_del, ret; cases; leaf; eauto 30 with u2db. Qed.
+#[export] Hint Resolve U2_h_del : u2db.
+Lemma U2_id_add : forall k s, U2 s -> U2 (id_add k s).
+Proof. intros; unfold id_add, ret; cases; leaf; eauto 30 with u2db. Qed.
+#[export] Hint Resolve U2_id_add : u2db.
+Lemma U2_id_del : forall k s, U2 s -> U2 (id_del k s).
+Proof. intros; unfold id_del, ret; cases; leaf; eauto 30 with u2db. Qed.
+#[export] Hint Resolve U2_id_del : u2db.
+Lemma U2_reset_sm_for_reconnect : forall s, U2 s -> U2 (reset_sm_for_reconnect s).
+Proof. intros; unfold reset_sm_for_reconnect, ret; cases; leaf; eauto 30 with u2db. Qed.
+#[export] Hint Resolve U2_reset_sm_for_reconnect : u2db.
+Lemma U2_sm_queue_cleanup : forall h s, U2 s -> U2 (sm_queue_cleanup h s).
+Proof. intros; unfold sm_queue_cleanup, ret; cases; leaf; eauto 30 with u2db. Qed.
+#[export] Hint Resolve U2_sm_queue_cleanup : u2db.
+Lemma U2_sm_queue_resend : forall s, U2 s -> U2 (sm_queue_resend s).
+Proof. intros; unfold sm_queue_resend. apply fold_left_inv; eauto with u2db. Qed.
+#[export] Hint Resolve U2_sm_queue_resend : u2db.
+Lemma U2_conn_disconnect : forall s, U2 s -> U2 (fst (conn_disconnect s)).
+Proof. intros; name_result; unfold conn_disconnect, ret; cases; leaf; eauto 30 with u2db. Qed.
+#[export] Hint Resolve U2_conn_disconnect : u2db.
+Lemma U2_xmpp_disconnect : forall n s, U2 s -> U2 (xmpp_disconnect n s).
+Proof. intros; unfold xmpp_disconnect, ret; cases; leaf; eauto 30 with u2db. Qed.
+#[export] Hint Resolve U2_xmpp_disconnect : u2db.
+Lemma U2_prepare_reset : forall h s, U2 s -> U2 (prepare_reset h s).
+Proof. intros; unfold prepare_reset, ret; cases; leaf; eauto 30 with u2db. Qed.
+#[export] Hint Resolve U2_prepare_reset : u2db.
+Lemma U2_conn_open_stream : forall s, U2 s -> U2 (conn_open_stream s).
+Proof. intros; unfold conn_open_stream, ret; cases; leaf; eauto 30 with u2db. Qed.
+#[export] Hint Resolve U2_conn_open_stream : u2db.
+Lemma U2_conn_tls_start : forall s, U2 s -> U2 (fst (fst (conn_tls_start s))).
+Proof. intros; name_result; unfold conn_tls_start, ret; cases; leaf; eauto 30 with u2db. Qed.
+#[export] Hint Resolve U2_conn_tls_start : u2db.
+Lemma U2_stream_negotiation_success : forall s, U2 s -> U2 (fst (stream_negotiation_success s)).
+Proof. intros; name_result; unfold stream_negotiation_success, ret; cases; leaf; eauto 30 with u2db. Qed.
+#[export] Hint Resolve U2_stream_negotiation_success : u2db.
+Lemma U2_do_bind : forall n b s, U2 s -> U2 (fst (do_bind n b s)).
+Proof. intros; name_result; unfold do_bind, ret; cases; leaf; eauto 30 with u2db. Qed.
+#[export] Hint Resolve U2_do_bind : u2db.
+Lemma U2_session_start : forall n s, U2 s -> U2 (session_start n s).
+Proof. intros; unfold session_start, ret; cases; leaf; eauto 30 with u2db. Qed.
+#[export] Hint Resolve U2_session_start : u2db.
+Lemma U2_sm_enable : forall s, U2 s -> U2 (sm_enable s).
+Proof. intros; unfold sm_enable, ret; cases; leaf; eauto 30 with u2db. Qed.
+#[export] Hint Resolve U2_sm_enable : u2db.
+Lemma U2_auth_legacy : forall n s, U2 s -> U2 (auth_legacy n s).
+Proof. intros; unfold auth_legacy, ret; cases; leaf; eauto 30 with u2db. Qed.
+#[export] Hint Resolve U2_auth_legacy : u2db.
+Lemma U2_auth : forall fuel n s, U2 s -> U2 (fst (auth fuel n s)).
+Proof. induction fuel; intros; name_result; cbn [auth]; unfold ret; cases; leaf; eauto 30 with u2db. Qed.
+#[export] Hint Resolve U2_auth : u2db.
+Lemma U2_sasl_result : forall n e s, U2 s -> U2 (fst (sasl_result n e s)).
+Proof. intros; name_result; unfold sasl_result, ret; cases; leaf; eauto 30 with u2db. Qed.
+#[export] Hint Resolve U2_sasl_result : u2db.
+Lemma U2_features_sasl : forall n e s, U2 s -> U2 (fst (features_sasl n e s)).
+Proof. intros; name_result; unfold features_sasl, ret; cases; leaf; eauto 30 with u2db. Qed.
+#[export] Hint Resolve U2_features_sasl : u2db.
+Lemma U2_call_handler : forall k n e s, U2 s -> U2 (fst (fst (call_handler k n e s))).
+Proof. intros k; destruct k; intros; name_result; unfold call_handler, ret; cases; leaf; eauto 30 with u2db. Qed.
+#[export] Hint Resolve U2_call_handler : u2db.
+Lemma U2_call_id_handler : forall k n e s, U2 s -> U2 (fst (call_id_handler k n e s)).
+Proof. intros k; destruct k; intros; name_result; unfold call_id_handler, ret; cases; leaf; eauto 30 with u2db. Qed.
+#[export] Hint Resolve U2_call_id_handler : u2db.
+Lemma U2_note_rx : forall e s, U2 s -> U2 (note_rx e s).
+Proof. intros; unfold note_rx; cbv zeta; eauto with u2db. Qed.
+#[export] Hint Resolve U2_note_rx : u2db.
+Lemma U2_visit : forall n e r k, U2 (fst r) -> U2 (fst (visit n e r k)).
+Proof. intros n e [s o] k H. cbn [fst] in H. name_result. unfold visit. cases; leaf; eauto 30 with u2db. Qed.
+Lemma U2_fold_visit : forall n e l s o, U2 s -> U2 (fst (fold_left (visit n e) l (s, o))).
+Proof. intros n e l s o H. apply (fold_left_inv (fun r => U2 (fst r))); auto. intros; apply U2_visit; auto. Qed.
+#[export] Hint Resolve U2_fold_visit : u2db.
+Lemma U2_sm_handle : forall e s, U2 s -> U2 (sm_handle e s).
+Proof. intros; unfold sm_handle, ret; cases; leaf; eauto 30 with u2db. Qed.
+#[export] Hint Resolve U2_sm_handle : u2db.
+Lemma U2_dispatch : forall n e s, U2 s -> U2 (fst (dispatch n e s)).
+Proof. intros; name_result; unfold dispatch, ret; cases; leaf; eauto 30 with u2db. Qed.
+#[export] Hint Resolve U2_dispatch : u2db.
+Lemma U2_open_handler : forall n s, U2 s -> U2 (fst (open_handler n s)).
+Proof. intros; name_result; unfold open_handler, ret; cases; leaf; eauto 30 with u2db. Qed.
+#[export] Hint Resolve U2_open_handler : u2db.
+Lemma U2_stream_start : forall n a b s, U2 s -> U2 (fst (stream_start n a b s)).
+Proof. intros; name_result; unfold stream_start, ret; cases; leaf; eauto 30 with u2db. Qed.
+#[export] Hint Resolve U2_stream_start : u2db.
+Lemma U2_stream_end : forall s, U2 s -> U2 (fst (stream_end s)).
+Proof. intros; name_result; unfold stream_end, ret; cases; leaf; eauto 30 with u2db. Qed.
+#[export] Hint Resolve U2_stream_end : u2db.
+Lemma U2_feed_item : forall n it s, U2 s -> U2 (fst (fst (feed_item n it s))).
+Proof. intros; name_result; unfold feed_item, ret; cases; leaf; eauto 30 with u2db. Qed.
+#[export] Hint Resolve U2_feed_item : u2db.
+Lemma U2_feed_items : forall n its s, U2 s -> U2 (fst (fst (feed_items n its s))).
+Proof. induction its; intros; name_result; cbn [feed_items]; cases; leaf; eauto 30 with u2db. Qed.
+#[export] Hint Resolve U2_feed_items : u2db.
+Lemma U2_call_timed : forall k n s, U2 s -> U2 (fst (fst (call_timed k n s))).
+Proof. intros k; destruct k; intros; name_result; unfold call_timed, ret; cases; leaf; eauto 30 with u2db. Qed.
+#[export] Hint Resolve U2_call_timed : u2db.
+Lemma U2_visit_timed : forall n r k, U2 (fst r) -> U2 (fst (visit_timed n r k)).
+Proof. intros n [s o] k H. cbn [fst] in H. name_result. unfold visit_timed. cases; leaf; eauto 30 with u2db. Qed.
+Lemma U2_fold_visit_timed : forall n l s o, U2 s -> U2 (fst (fold_left (visit_timed n) l (s, o))).
+Proof. intros n l s o H. apply (fold_left_inv (fun r => U2 (fst r))); auto. intros; apply U2_visit_timed; auto. Qed.
+#[export] Hint Resolve U2_fold_visit_timed : u2db.
+Lemma U2_fire_timed : forall n s, U2 s -> U2 (fst (fire_timed n s)).
+Proof. intros; name_result; unfold fire_timed, ret; cases; leaf; eauto 30 with u2db. Qed.
+#[export] Hint Resolve U2_fire_timed : u2db.
+Lemma U2_connect_next : forall n s, U2 s -> U2 (fst (fst (connect_next n s))).
+Proof. intros; name_result; unfold connect_next, ret; cases; leaf; eauto 30 with u2db. Qed.
+#[export] Hint Resolve U2_connect_next : u2db.
+Lemma U2_conn_established : forall n s, U2 s -> U2 (fst (conn_established n s)).
+Proof. intros; name_result; unfold conn_established, ret; cases; leaf; eauto 30 with u2db. Qed.
+#[export] Hint Resolve U2_conn_established : u2db.
+
+(* ================================================================== U1: a queued user stanza implies "connected" was reported *)
+Definition is_wuser (w : welem) : bool := match w with WUser => true | _ => false end.
+Definition has_user (q : list (welem * bool * bool)) : bool := existsb (fun x => is_wuser (fst (fst x))) q.
+Definition U1 (s : state) : Prop := st s = Connected -> neg_done s = false -> has_user (sendq s) = false.
+
+Lemma U1_set_f_tls_disabled : forall v s, U1 s -> U1 (set_f_tls_disabled v s).
+Proof. intros v []; exact (fun h => h). Qed.
+#[export] Hint Resolve U1_set_f_tls_disabled : u1db.
+Lemma U1_set_f_tls_mandatory : forall v s, U1 s -> U1 (set_f_tls_mandatory v s).
+Proof. intros v []; exact (fun h => h). Qed.
+#[export] Hint Resolve U1_set_f_tls_mandatory : u1db.
+Lemma U1_set_f_legacy_ssl : forall v s, U1 s -> U1 (set_f_legacy_ssl v s).
+Proof. intros v []; exact (fun h => h). Qed.
+#[export] Hint Resolve U1_set_f_legacy_ssl : u1db.
+Lemma U1_set_f_tls_trust : forall v s, U1 s -> U1 (set_f_tls_trust v s).
+Proof. intros v []; exact (fun h => h). Qed.
+#[export] Hint Resolve U1_set_f_tls_trust : u1db.
+Lemma U1_set_f_legacy_auth : forall v s, U1 s -> U1 (set_f_legacy_auth v s).
+Proof. intros v []; exact (fun h => h). Qed.
+#[export] Hint Resolve U1_set_f_legacy_auth : u1db.
+Lemma U1_set_f_sm_disable : forall v s, U1 s -> U1 (set_f_sm_disable v s).
+Proof. intros v []; exact (fun h => h). Qed.
+#[export] Hint Resolve U1_set_f_sm_disable : u1db.
+Lemma U1_set_f_comp_allowed : forall v s, U1 s -> U1 (set_f_comp_allowed v s).
+Proof. intros v []; exact (fun h => h). Qed.
+#[export] Hint Resolve U1_set_f_comp_allowed : u1db.
+Lemma U1_set_f_comp_dont_reset : forall v s, U1 s -> U1 (set_f_comp_dont_reset v s).
+Proof. intros v []; exact (fun h => h). Qed.
+#[export] Hint Resolve U1_set_f_comp_dont_reset : u1db.
+Lemma U1_set_jid_set : forall v s, U1 s -> U1 (set_jid_set v s).
+Proof. intros v []; exact (fun h => h). Qed.
+#[export] Hint Resolve U1_set_jid_set : u1db.
+Lemma U1_set_jid_node : forall v s, U1 s -> U1 (set_jid_node v s).
+Proof. intros v []; exact (fun h => h). Qed.
+#[export] Hint Resolve U1_set_jid_node : u1db.
+Lemma U1_set_jid_res : forall v s, U1 s -> U1 (set_jid_res v s).
+Proof. intros v []; exact (fun h => h). Qed.
+#[export] Hint Resolve U1_set_jid_res : u1db.
+Lemma U1_set_pass_set : forall v s, U1 s -> U1 (set_pass_set v s).
+Proof. intros v []; exact (fun h => h). Qed.
+#[export] Hint Resolve U1_set_pass_set : u1db.
+Lemma U1_set_cert_set : forall v s, U1 s -> U1 (set_cert_set v s).
+Proof. intros v []; exact (fun h => h). Qed.
+#[export] Hint Resolve U1_set_cert_set : u1db.
+Lemma U1_set_is_raw : forall v s, U1 s -> U1 (set_is_raw v s).
+Proof. intros v []; exact (fun h => h). Qed.
+#[export] Hint Resolve U1_set_is_raw : u1db.
+Lemma U1_set_typ : forall v s, U1 s -> U1 (set_typ v s).
+Proof. intros v []; exact (fun h => h). Qed.
+#[export] Hint Resolve U1_set_typ : u1db.
+Lemma U1_set_user_handler : forall v s, U1 s -> U1 (set_user_handler v s).
+Proof. intros v []; exact (fun h => h). Qed.
+#[export] Hint Resolve U1_set_user_handler : u1db.
+Lemma U1_set_user_timed : forall v s, U1 s -> U1 (set_user_timed v s).
+Proof. intros v []; exact (fun h => h). Qed.
+#[export] Hint Resolve U1_set_user_timed : u1db.
+Lemma U1_set_tlsnew_ok : forall v s, U1 s -> U1 (set_tlsnew_ok v s).
+Proof. intros v []; exact (fun h => h). Qed.
+#[export] Hint Resolve U1_set_tlsnew_ok : u1db.
+Lemma U1_set_cb_avail : forall v s, U1 s -> U1 (set_cb_avail v s).
+Proof. intros v []; exact (fun h => h). Qed.
+#[export] Hint Resolve U1_set_cb_avail : u1db.
+Lemma U1_set_tls_verdicts : forall v s, U1 s -> U1 (set_tls_verdicts v s).
+Proof. intros v []; exact (fun h => h). Qed.
+#[export] Hint Resolve U1_set_tls_verdicts : u1db.
+Lemma U1_set_next_cands : forall v s, U1 s -> U1 (set_next_cands v s).
+Proof. intros v []; exact (fun h => h). Qed.
+#[export] Hint Resolve U1_set_next_cands : u1db.
+Lemma U1_set_cands : forall v s, U1 s -> U1 (set_cands v s).
+Proof. intros v []; exact (fun h => h). Qed.
+#[export] Hint Resolve U1_set_cands : u1db.
+Lemma U1_set_cur_ep : forall v s, U1 s -> U1 (set_cur_ep v s).
+Proof. intros v []; exact (fun h => h). Qed.
+#[export] Hint Resolve U1_set_cur_ep : u1db.
+Lemma U1_set_stamp : forall v s, U1 s -> U1 (set_stamp v s).
+Proof. intros v []; exact (fun h => h). Qed.
+#[export] Hint Resolve U1_set_stamp : u1db.
+Lemma U1_set_err : forall v s, U1 s -> U1 (set_err v s).
+Proof. intros v []; exact (fun h => h). Qed.
+#[export] Hint Resolve U1_set_err : u1db.
+Lemma U1_set_stream_error : forall v s, U1 s -> U1 (set_stream_error v s).
+Proof. intros v []; exact (fun h => h). Qed.
+#[export] Hint Resolve U1_set_stream_error : u1db.
+Lemma U1_set_secured : forall v s, U1 s -> U1 (set_secured v s).
+Proof. intros v []; exact (fun h => h). Qed.
+#[export] Hint Resolve U1_set_secured : u1db.
+Lemma U1_set_tls_present : forall v s, U1 s -> U1 (set_tls_present v s).
+Proof. intros v []; exact (fun h => h). Qed.
+#[export] Hint Resolve U1_set_tls_present : u1db.
+Lemma U1_set_tls_failed : forall v s, U1 s -> U1 (set_tls_failed v s).
+Proof. intros v []; exact (fun h => h). Qed.
+#[export] Hint Resolve U1_set_tls_failed : u1db.
+Lemma U1_set_tls_support : forall v s, U1 s -> U1 (set_tls_support v s).
+Proof. intros v []; exact (fun h => h). Qed.
+#[export] Hint Resolve U1_set_tls_support : u1db.
+Lemma U1_set_sasl : forall v s, U1 s -> U1 (set_sasl v s).
+Proof. intros v []; exact (fun h => h). Qed.
+#[export] Hint Resolve U1_set_sasl : u1db.
+Lemma U1_set_bind_required : forall v s, U1 s -> U1 (set_bind_required v s).
+Proof. intros v []; exact (fun h => h). Qed.
+#[export] Hint Resolve U1_set_bind_required : u1db.
+Lemma U1_set_session_required : forall v s, U1 s -> U1 (set_session_required v s).
+Proof. intros v []; exact (fun h => h). Qed.
+#[export] Hint Resolve U1_set_session_required : u1db.
+Lemma U1_set_comp_supported : forall v s, U1 s -> U1 (set_comp_supported v s).
+Proof. intros v []; exact (fun h => h). Qed.
+#[export] Hint Resolve U1_set_comp_supported : u1db.
+Lemma U1_set_comp_active : forall v s, U1 s -> U1 (set_comp_active v s).
+Proof. intros v []; exact (fun h => h). Qed.
+#[export] Hint Resolve U1_set_comp_active : u1db.
+Lemma U1_set_sm_alloc : forall v s, U1 s -> U1 (set_sm_alloc v s).
+Proof. intros v []; exact (fun h => h). Qed.
+#[export] Hint Resolve U1_set_sm_alloc : u1db.
+Lemma U1_set_sm_support : forall v s, U1 s -> U1 (set_sm_support v s).
+Proof. intros v []; exact (fun h => h). Qed.
+#[export] Hint Resolve U1_set_sm_support : u1db.
+Lemma U1_set_sm_enabled : forall v s, U1 s -> U1 (set_sm_enabled v s).
+Proof. intros v []; exact (fun h => h). Qed.
+#[export] Hint Resolve U1_set_sm_enabled : u1db.
+Lemma U1_set_sm_can_resume : forall v s, U1 s -> U1 (set_sm_can_resume v s).
+Proof. intros v []; exact (fun h => h). Qed.
+#[export] Hint Resolve U1_set_sm_can_resume : u1db.
+Lemma U1_set_sm_resume : forall v s, U1 s -> U1 (set_sm_resume v s).
+Proof. intros v []; exact (fun h => h). Qed.
+#[export] Hint Resolve U1_set_sm_resume : u1db.
+Lemma U1_set_sm_dont_request : forall v s, U1 s -> U1 (set_sm_dont_request v s).
+Proof. intros v []; exact (fun h => h). Qed.
+#[export] Hint Resolve U1_set_sm_dont_request : u1db.
+Lemma U1_set_sm_has_previd : forall v s, U1 s -> U1 (set_sm_has_previd v s).
+Proof. intros v []; exact (fun h => h). Qed.
+#[export] Hint Resolve U1_set_sm_has_previd : u1db.
+Lemma U1_set_sm_has_id : forall v s, U1 s -> U1 (set_sm_has_id v s).
+Proof. intros v []; exact (fun h => h). Qed.
+#[export] Hint Resolve U1_set_sm_has_id : u1db.
+Lemma U1_set_sm_parked : forall v s, U1 s -> U1 (set_sm_parked v s).
+Proof. intros v []; exact (fun h => h). Qed.
+#[export] Hint Resolve U1_set_sm_parked : u1db.
+Lemma U1_set_sm_r_sent : forall v s, U1 s -> U1 (set_sm_r_sent v s).
+Proof. intros v []; exact (fun h => h). Qed.
+#[export] Hint Resolve U1_set_sm_r_sent : u1db.
+Lemma U1_set_sm_bind_saved : forall v s, U1 s -> U1 (set_sm_bind_saved v s).
+Proof. intros v []; exact (fun h => h). Qed.
+#[export] Hint Resolve U1_set_sm_bind_saved : u1db.
+Lemma U1_set_bound_jid : forall v s, U1 s -> U1 (set_bound_jid v s).
+Proof. intros v []; exact (fun h => h). Qed.
+#[export] Hint Resolve U1_set_bound_jid : u1db.
+Lemma U1_set_stream_id : forall v s, U1 s -> U1 (set_stream_id v s).
+Proof. intros v []; exact (fun h => h). Qed.
+#[export] Hint Resolve U1_set_stream_id : u1db.
+Lemma U1_set_reset_parser : forall v s, U1 s -> U1 (set_reset_parser v s).
+Proof. intros v []; exact (fun h => h). Qed.
+#[export] Hint Resolve U1_set_reset_parser : u1db.
+Lemma U1_set_oh : forall v s, U1 s -> U1 (set_oh v s).
+Proof. intros v []; exact (fun h => h). Qed.
+#[export] Hint Resolve U1_set_oh : u1db.
+Lemma U1_set_ps : forall v s, U1 s -> U1 (set_ps v s).
+Proof. intros v []; exact (fun h => h). Qed.
+#[export] Hint Resolve U1_set_ps : u1db.
+Lemma U1_set_handlers : forall v s, U1 s -> U1 (set_handlers v s).
+Proof. intros v []; exact (fun h => h). Qed.
+#[export] Hint Resolve U1_set_handlers : u1db.
+Lemma U1_set_idhandlers : forall v s, U1 s -> U1 (set_idhandlers v s).
+Proof. intros v []; exact (fun h => h). Qed.
+#[export] Hint Resolve U1_set_idhandlers : u1db.
+Lemma U1_set_timed : forall v s, U1 s -> U1 (set_timed v s).
+Proof. intros v []; exact (fun h => h). Qed.
+#[export] Hint Resolve U1_set_timed : u1db.
+Lemma U1_set_rxq : forall v s, U1 s -> U1 (set_rxq v s).
+Proof. intros v []; exact (fun h => h). Qed.
+#[export] Hint Resolve U1_set_rxq : u1db.
+Lemma U1_set_smq : forall v s, U1 s -> U1 (set_smq v s).
+Proof. intros v []; exact (fun h => h). Qed.
+#[export] Hint Resolve U1_set_smq : u1db.
+Lemma U1_set_sm_sent : forall v s, U1 s -> U1 (set_sm_sent v s).
+Proof. intros v []; exact (fun h => h). Qed.
+#[export] Hint Resolve U1_set_sm_sent : u1db.
+Lemma U1_set_scram_serial : forall v s, U1 s -> U1 (set_scram_serial v s).
+Proof. intros v []; exact (fun h => h). Qed.
+#[export] Hint Resolve U1_set_scram_serial : u1db.
+Lemma U1_set_crashed : forall v s, U1 s -> U1 (set_crashed v s).
+Proof. intros v []; exact (fun h => h). Qed.
+#[export] Hint Resolve U1_set_crashed : u1db.
+Lemma U1_set_gh : forall v s, U1 s -> U1 (set_gh v s).
+Proof. intros v []; exact (fun h => h). Qed.
+#[export] Hint Resolve U1_set_gh : u1db.
+Lemma U1_set_st_disc : forall s, U1 (set_st Disconnected s).
+Proof. intros [] C; cbn in C; discriminate. Qed.
+Lemma U1_set_neg_done_disc : forall s, U1 (set_neg_done false (set_st Disconnected s)).
+Proof. intros [] C; cbn in C; discriminate. Qed.
+Lemma U1_set_neg_done_true : forall s, U1 (set_neg_done true s).
+Proof. intros [] C N; cbn in N; discriminate. Qed.
+Lemma U1_upg : forall f s, U1 s -> U1 (upg f s).
+Proof. intros f []; exact (fun h => h). Qed.
+#[export] Hint Resolve U1_set_st_disc U1_set_neg_done_disc U1_set_neg_done_true U1_upg : u1db.
+Lemma has_user_app : forall a b, has_user (a ++ b) = has_user a || has_user b.
+Proof. intros; unfold has_user; apply existsb_app. Qed.
+Lemma U1_q_append : forall w u sm s, (is_wuser w = true -> neg_done s = true) -> U1 s -> U1 (q_append w u sm s).
+Proof.
+  intros w u sm s Hw H. unfold q_append, U1 in *. cases; sproj; intros C N; rewrite ?has_user_app, (H C N); cbn;
+    destruct (is_wuser w) eqn:W; auto; rewrite Hw in N; auto; discriminate.
+Qed.
+Lemma U1_send_gated : forall w u sm s, is_wuser w = false \/ u = true -> U1 s -> U1 (send_gated w u sm s).
+Proof.
+  intros w u sm s Hw H. unfold send_gated. destruct (is_connected_owner s u) eqn:E; auto.
+  apply U1_q_append; auto. intros W. destruct Hw as [Hw|Hw]; [congruence|]. subst u.
+  unfold is_connected_owner in E. destruct (st s); try discriminate. exact E.
+Qed.
+#[export] Hint Extern 1 (U1 (send_gated _ _ _ _)) => (apply U1_send_gated; [first [left; reflexivity | right; reflexivity] | ]) : u1db.
+Lemma U1_send_raw_m : forall w u sm s, is_wuser w = false -> U1 s -> U1 (send_raw_m w u sm s).
+Proof. intros w u sm s Hw H. unfold send_raw_m. destruct (st s); auto. apply U1_q_append; auto. congruence. Qed.
+#[export] Hint Extern 1 (U1 (send_raw_m _ _ _ _)) => (apply U1_send_raw_m; [reflexivity | ]) : u1db.
+Lemma U1_timed_add : forall k n s, U1 s -> U1 (timed_add k n s).
+Proof. intros; unfold timed_add, ret; cases; leaf; eauto 30 with u1db. Qed.
+#[export] Hint Resolve U1_timed_add : u1db.
+Lemma U1_timed_del : forall k s, U1 s -> U1 (timed_del k s).
+Proof. intros; unfold timed_del, ret; cases; leaf; eauto 30 with u1db. Qed.
+#[export] Hint Resolve U1_timed_del : u1db.
+Lemma U1_timed_reset_all : forall n s, U1 s -> U1 (timed_reset_all n s).
+Proof. intros; unfold timed_reset_all, ret; cases; leaf; eauto 30 with u1db. Qed.
+#[export] Hint Resolve U1_timed_reset_all : u1db.
+Lemma U1_timed_set_stamp : forall k n s, U1 s -> U1 (timed_set_stamp k n s).
+Proof. intros; unfold timed_set_stamp, ret; cases; leaf; eauto 30 with u1db. Qed.
+#[export] Hint Resolve U1_timed_set_stamp : u1db.
+Lemma U1_h_add : forall k s, U1 s -> U1 (h_add k s).
+Proof. intros; unfold h_add, ret; cases; leaf; eauto 30 with u1db. Qed.
+#[export] Hint Resolve U1_h_add : u1db.
+Lemma U1_h_del : forall k s, U1 s -> U1 (h_del k s).
+Proof. intros; unfold h_del, ret; cases; leaf; eauto 30 with u1db. Qed.
+#[export] Hint Resolve U1_h_del : u1db.
+Lemma U1_id_add : forall k s, U1 s -> U1 (id_add k s).
+Proof. intros; unfold id_add, ret; cases; leaf; eauto 30 with u1db. Qed.
+#[export] Hint Resolve U1_id_add : u1db.
+Lemma U1_id_del : forall k s, U1 s -> U1 (id_del k s).
+Proof. intros; unfold id_del, ret; cases; leaf; eauto 30 with u1db. Qed.
+#[export] Hint Resolve U1_id_del : u1db.
+Lemma U1_reset_sm_for_reconnect : forall s, U1 s -> U1 (reset_sm_for_reconnect s).
+Proof. intros; unfold reset_sm_for_reconnect, ret; cases; leaf; eauto 30 with u1db. Qed.
+#[export] Hint Resolve U1_reset_sm_for_reconnect : u1db.
+Lemma U1_sm_queue_cleanup : forall h s, U1 s -> U1 (sm_queue_cleanup h s).
+Proof. intros; unfold sm_queue_cleanup, ret; cases; leaf; eauto 30 with u1db. Qed.
+#[export] Hint Resolve U1_sm_queue_cleanup : u1db.
+(* sm_queue_resend re-queues retained user stanzas: U1 is re-established by the
+   stream_negotiation_success that always follows it (U1_stream_negotiation_success is unconditional) *)
+Lemma U1_conn_disconnect : forall s, U1 s -> U1 (fst (conn_disconnect s)).
+Proof. intros; name_result; unfold conn_disconnect, ret; cases; leaf; eauto 30 with u1db. Qed.
+#[export] Hint Resolve U1_conn_disconnect : u1db.
+Lemma U1_xmpp_disconnect : forall n s, U1 s -> U1 (xmpp_disconnect n s).
+Proof. intros; unfold xmpp_disconnect, ret; cases; leaf; eauto 30 with u1db. Qed.
+#[export] Hint Resolve U1_xmpp_disconnect : u1db.
+Lemma U1_prepare_reset : forall h s, U1 s -> U1 (prepare_reset h s).
+Proof. intros; unfold prepare_reset, ret; cases; leaf; eauto 30 with u1db. Qed.
+#[export] Hint Resolve U1_prepare_reset : u1db.
+Lemma U1_conn_open_stream : forall s, U1 s -> U1 (conn_open_stream s).
+Proof. intros; unfold conn_open_stream, ret; cases; leaf; eauto 30 with u1db. Qed.
+#[export] Hint Resolve U1_conn_open_stream : u1db.
+Lemma U1_conn_tls_start : forall s, U1 s -> U1 (fst (fst (conn_tls_start s))).
+Proof. intros; name_result; unfold conn_tls_start, ret; cases; leaf; eauto 30 with u1db. Qed.
+#[export] Hint Resolve U1_conn_tls_start : u1db.
+Lemma U1_stream_negotiation_success : forall s, U1 (fst (stream_negotiation_success s)).
+Proof.
+  intros s. unfold stream_negotiation_success, ret. destruct (negb (is_raw s) && neg_done s) eqn:E; cbn [fst].
+  - apply andb_prop in E. destruct E as [_ E]. intros _ N. congruence.
+  - cases; intros C N; revert N; sproj; discriminate.
+Qed.
+#[export] Hint Resolve U1_stream_negotiation_success : u1db.
+Lemma U1_do_bind : forall n b s, U1 s -> U1 (fst (do_bind n b s)).
+Proof. intros; name_result; unfold do_bind, ret; cases; leaf; eauto 30 with u1db. Qed.
+#[export] Hint Resolve U1_do_bind : u1db.
+Lemma U1_session_start : forall n s, U1 s -> U1 (session_start n s).
+Proof. intros; unfold session_start, ret; cases; leaf; eauto 30 with u1db. Qed.
+#[export] Hint Resolve U1_session_start : u1db.
+Lemma U1_sm_enable : forall s, U1 s -> U1 (sm_enable s).
+Proof. intros; unfold sm_enable, ret; cases; leaf; eauto 30 with u1db. Qed.
+#[export] Hint Resolve U1_sm_enable : u1db.
+Lemma U1_auth_legacy : forall n s, U1 s -> U1 (auth_legacy n s).
+Proof. intros; unfold auth_legacy, ret; cases; leaf; eauto 30 with u1db. Qed.
+#[export] Hint Resolve U1_auth_legacy : u1db.
+Lemma U1_auth : forall fuel n s, U1 s -> U1 (fst (auth fuel n s)).
+Proof. induction fuel; intros; name_result; cbn [auth]; unfold ret; cases; leaf; eauto 30 with u1db. Qed.
+#[export] Hint Resolve U1_auth : u1db.
+Lemma U1_sasl_result : forall n e s, U1 s -> U1 (fst (sasl_result n e s)).
+Proof. intros; name_result; unfold sasl_result, ret; cases; leaf; eauto 30 with u1db. Qed.
+#[export] Hint Resolve U1_sasl_result : u1db.
+Lemma U1_features_sasl : forall n e s, U1 s -> U1 (fst (features_sasl n e s)).
+Proof. intros; name_result; unfold features_sasl, ret; cases; leaf; eauto 30 with u1db. Qed.
+#[export] Hint Resolve U1_features_sasl : u1db.
+Lemma U1_call_handler : forall k n e s, U1 s -> U1 (fst (fst (call_handler k n e s))).
+Proof. intros k; destruct k; intros; name_result; unfold call_handler, ret; cases; leaf; eauto 30 with u1db. Qed.
+#[export] Hint Resolve U1_call_handler : u1db.
+Lemma U1_call_id_handler : forall k n e s, U1 s -> U1 (fst (call_id_handler k n e s)).
+Proof. intros k; destruct k; intros; name_result; unfold call_id_handler, ret; cases; leaf; eauto 30 with u1db. Qed.
+#[export] Hint Resolve U1_call_id_handler : u1db.
+Lemma U1_note_rx : forall e s, U1 s -> U1 (note_rx e s).
+Proof. intros; unfold note_rx; cbv zeta; eauto with u1db. Qed.
+#[export] Hint Resolve U1_note_rx : u1db.
+Lemma U1_visit : forall n e r k, U1 (fst r) -> U1 (fst (visit n e r k)).
+Proof. intros n e [s o] k H. cbn [fst] in H. name_result. unfold visit. cases; leaf; eauto 30 with u1db. Qed.
+Lemma U1_fold_visit : forall n e l s o, U1 s -> U1 (fst (fold_left (visit n e) l (s, o))).
+Proof. intros n e l s o H. apply (fold_left_inv (fun r => U1 (fst r))); auto. intros; apply U1_visit; auto. Qed.
+#[export] Hint Resolve U1_fold_visit : u1db.
+Lemma U1_sm_handle : forall e s, U1 s -> U1 (sm_handle e s).
+Proof. intros; unfold sm_handle, ret; cases; leaf; eauto 30 with u1db. Qed.
+#[export] Hint Resolve U1_sm_handle : u1db.
+Lemma U1_dispatch : forall n e s, U1 s -> U1 (fst (dispatch n e s)).
+Proof. intros; name_result; unfold dispatch, ret; cases; leaf; eauto 30 with u1db. Qed.
+#[export] Hint Resolve U1_dispatch : u1db.
+Lemma U1_open_handler : forall n s, U1 s -> U1 (fst (open_handler n s)).
+Proof. intros; name_result; unfold open_handler, ret; cases; leaf; eauto 30 with u1db. Qed.
+#[export] Hint Resolve U1_open_handler : u1db.
+Lemma U1_stream_start : forall n a b s, U1 s -> U1 (fst (stream_start n a b s)).
+Proof. intros; name_result; unfold stream_start, ret; cases; leaf; eauto 30 with u1db. Qed.
+#[export] Hint Resolve U1_stream_start : u1db.
+Lemma U1_stream_end : forall s, U1 s -> U1 (fst (stream_end s)).
+Proof. intros; name_result; unfold stream_end, ret; cases; leaf; eauto 30 with u1db. Qed.
+#[export] Hint Resolve U1_stream_end : u1db.
+Lemma U1_feed_item : forall n it s, U1 s -> U1 (fst (fst (feed_item n it s))).
+Proof. intros; name_result; unfold feed_item, ret; cases; leaf; eauto 30 with u1db. Qed.
+#[export] Hint Resolve U1_feed_item : u1db.
+Lemma U1_feed_items : forall n its s, U1 s -> U1 (fst (fst (feed_items n its s))).
+Proof. induction its; intros; name_result; cbn [feed_items]; cases; leaf; eauto 30 with u1db. Qed.
+#[export] Hint Resolve U1_feed_items : u1db.
+Lemma U1_call_timed : forall k n s, U1 s -> U1 (fst (fst (call_timed k n s))).
+Proof. intros k; destruct k; intros; name_result; unfold call_timed, ret; cases; leaf; eauto 30 with u1db. Qed.
+#[export] Hint Resolve U1_call_timed : u1db.
+Lemma U1_visit_timed : forall n r k, U1 (fst r) -> U1 (fst (visit_timed n r k)).
+Proof. intros n [s o] k H. cbn [fst] in H. name_result. unfold visit_timed. cases; leaf; eauto 30 with u1db. Qed.
+Lemma U1_fold_visit_timed : forall n l s o, U1 s -> U1 (fst (fold_left (visit_timed n) l (s, o))).
+Proof. intros n l s o H. apply (fold_left_inv (fun r => U1 (fst r))); auto. intros; apply U1_visit_timed; auto. Qed.
+#[export] Hint Resolve U1_fold_visit_timed : u1db.
+Lemma U1_fire_timed : forall n s, U1 s -> U1 (fst (fire_timed n s)).
+Proof. intros; name_result; unfold fire_timed, ret; cases; leaf; eauto 30 with u1db. Qed.
+#[export] Hint Resolve U1_fire_timed : u1db.
+Lemma U1_connect_next : forall n s, U1 s -> U1 (fst (fst (connect_next n s))).
+Proof. intros; name_result; unfold connect_next, ret; cases; leaf; eauto 30 with u1db. Qed.
+#[export] Hint Resolve U1_connect_next : u1db.
+Lemma U1_conn_established : forall n s, U1 s -> U1 (fst (conn_established n s)).
+Proof. intros; name_result; unfold conn_established, ret; cases; leaf; eauto 30 with u1db. Qed.
+#[export] Hint Resolve U1_conn_established : u1db.
+
+(* ================================================================== the phases of run_once *)
+Definition ph_pre (rd0 : rdev) (s0 : state) : state :=
+  match rd0, st s0 with
+  | RdNone, _ => s0
+  | _, Disconnected => s0
+  | _, _ => set_rxq (rxq s0 ++ [rd0]) s0
+  end.
+Definition ph_reset (s1 : state) : state :=
+  if reset_parser s1 then set_ps PDepth0 (set_reset_parser false s1) else s1.
+Definition ph_watch (now : Z) (s3 : state) : R :=
+  match st s3 with
+  | Connecting =>
+      if now - stamp s3 <=? CONNECT_TIMEOUT then ret s3
+      else let '(s', o', ok) := connect_next now s3 in
+           if ok then (s', o')
+           else
+             let s'' := set_neg_done false (set_st Disconnected (set_err ETIMEDOUT s')) in
+             (reset_sm_for_reconnect s'', o' ++ [ODisconnect ETIMEDOUT (stream_error s'')])
+  | _ => ret s3
+  end.
+Definition ph_ready (s4 : state) : bool :=
+  match st s4 with
+  | Connecting => match cur_ep s4 with EpHang => false | _ => true end
+  | Connected => (match rxq s4 with [] => false | _ => true end) || negb (Nat.eqb (List.length (sendq s4)) 0)
+  | Disconnected => false
+  end.
+Definition ph_io (now : Z) (s4 : state) : R :=
+  match st s4 with
+  | Connecting =>
+      match cur_ep s4 with
+      | EpAccept => conn_established now (set_st Connected s4)
+      | EpLate =>
+          let '(s', o', ok) := connect_next now s4 in
+          if ok then (s', o')
+          else let s'' := set_neg_done false (set_st Disconnected (set_err (-1) s')) in
+               (reset_sm_for_reconnect s'', o' ++ [ODisconnect (-1) (stream_error s'')])
+      | _ => ret s4
+      end
+  | Connected =>
+      let rd := match rxq s4 with [] => RdNone | x :: _ => x end in
+      let s4 := set_rxq (tl (rxq s4)) s4 in
+      match rd with
+      | RdNone => ret s4
+      | RdChunk its =>
+          let '(s', o', bad) := feed_items now its s4 in
+          if bad then (send_gated WStreamErr false false s', o') else (s', o')
+      | RdClose =>
+          if tls_present s4 then conn_disconnect (set_err ECONNRESET s4)
+          else conn_disconnect (set_err ECONNRESET s4)
+      | RdReset => conn_disconnect (set_err ECONNRESET s4)
+      end
+  | Disconnected => ret s4
+  end.
+
+Lemma run_once_eq : forall now rd0 s0, run_once now rd0 s0 =
+  if crashed s0 then ret s0 else
+  let s := ph_pre rd0 s0 in
+  let '(s1, o1) := send_phase s in
+  if crashed s1 then (s1, o1) else
+  let s2 := ph_reset s1 in
+  let '(s3, o3) := fire_timed now s2 in
+  if crashed s3 then (s3, o1 ++ o3) else
+  let '(s4, o4) := ph_watch now s3 in
+  if negb (ph_ready s4) then (s4, o1 ++ o3 ++ o4 ++ [OIter]) else
+  let '(s5, o5) := ph_io now s4 in
+  if crashed s5 then (s5, o1 ++ o3 ++ o4 ++ o5) else
+  let '(s6, o6) := fire_timed now s5 in
+  (s6, o1 ++ o3 ++ o4 ++ o5 ++ o6 ++ [OIter]).
+Proof. reflexivity. Qed.
+
+Lemma run_once_ind : forall (P1 P2 P3 P4 P5 P6 Rr : state -> list out -> Prop) n rd s0,
+  (crashed s0 = true -> Rr s0 []) ->
+  (crashed s0 = false -> P1 (fst (send_phase (ph_pre rd s0))) (snd (send_phase (ph_pre rd s0)))) ->
+  (forall s o, P1 s o -> Rr s o) ->
+  (forall s o, P1 s o -> P2 (ph_reset s) o) ->
+  (forall s o, P2 s o -> P3 (fst (fire_timed n s)) (o ++ snd (fire_timed n s))) ->
+  (forall s o, P3 s o -> Rr s o) ->
+  (forall s o, P3 s o -> P4 (fst (ph_watch n s)) (o ++ snd (ph_watch n s))) ->
+  (forall s o, P4 s o -> Rr s (o ++ [OIter])) ->
+  (forall s o, P4 s o -> P5 (fst (ph_io n s)) (o ++ snd (ph_io n s))) ->
+  (forall s o, P5 s o -> Rr s o) ->
+  (forall s o, P5 s o -> P6 (fst (fire_timed n s)) (o ++ snd (fire_timed n s))) ->
+  (forall s o, P6 s o -> Rr s (o ++ [OIter])) ->
+  Rr (fst (run_once n rd s0)) (snd (run_once n rd s0)).
+Proof.
+  intros P1 P2 P3 P4 P5 P6 Rr n rd s0 Hc H1 H1r H2 H3 H3r H4 H4r H5 H5r H6 H6r.
+  rewrite run_once_eq. destruct (crashed s0) eqn:C; [exact (Hc eq_refl)|]. specialize (H1 eq_refl). cbv zeta.
+  destruct (send_phase (ph_pre rd s0)) as [s1 o1]. cbn [fst snd] in H1.
+  destruct (crashed s1); [apply H1r; exact H1|].
+  pose proof (H3 _ _ (H2 _ _ H1)) as K3. destruct (fire_timed n (ph_reset s1)) as [s3 o3]. cbn [fst snd] in *.
+  destruct (crashed s3); [apply H3r; exact K3|].
+  pose proof (H4 _ _ K3) as K4. destruct (ph_watch n s3) as [s4 o4]. cbn [fst snd] in *.
+  destruct (negb (ph_ready s4)).
+  { replace (o1 ++ o3 ++ o4 ++ [OIter]) with (((o1 ++ o3) ++ o4) ++ [OIter]) by (rewrite <- !app_assoc; reflexivity).
+    apply H4r; exact K4. }
+  pose proof (H5 _ _ K4) as K5. destruct (ph_io n s4) as [s5 o5]. cbn [fst snd] in *.
+  destruct (crashed s5).
+  { replace (o1 ++ o3 ++ o4 ++ o5) with (((o1 ++ o3) ++ o4) ++ o5) by (rewrite <- !app_assoc; reflexivity).
+    apply H5r; exact K5. }
+  pose proof (H6 _ _ K5) as K6. destruct (fire_timed n s5) as [s6 o6]. cbn [fst snd] in *.
+  replace (o1 ++ o3 ++ o4 ++ o5 ++ o6 ++ [OIter]) with (((((o1 ++ o3) ++ o4) ++ o5) ++ o6) ++ [OIter])
+    by (rewrite <- !app_assoc; reflexivity).
+  apply H6r; exact K6.
+Qed.
+
+Lemma Tr_ph_watch : forall n s0 s o, Tr s0 s o -> Tr s0 (fst (ph_watch n s)) (o ++ snd (ph_watch n s)).
+Proof. intros; name_result; unfold ph_watch, ret; cases; leaf; eauto 30 with trdb. Qed.
+(* the read/connect phase: Tr from its start state, or - when the TCP connect completes - from that
+   state marked Connected *)
+Lemma Tr_ph_io : forall n s0 s o, Tr s0 s o ->
+  (st s = Connecting /\ cur_ep s = EpAccept /\ ph_io n s = conn_established n (set_st Connected s)) \/
+  Tr s0 (fst (ph_io n s)) (o ++ snd (ph_io n s)).
+Proof.
+  intros n s0 s o H. unfold ph_io. destruct (st s) eqn:E.
+  - right. cbn. eauto with trdb.
+  - destruct (cur_ep s) eqn:E2; [left; auto | right; cbn; eauto with trdb | right | right; cbn; eauto with trdb].
+    name_result; cases; leaf; eauto 30 with trdb.
+  - right. name_result; unfold ret; cases; leaf; eauto 30 with trdb.
+Qed.
+
+(* ================================================================== C03: ok_restart *)
+(* phases before the read phase never start TLS *)
+Definition nt (o : out) : bool := negb (is_tls o).
+Lemma nt_tls_out : forall o, forallb nt o = true -> tls_out o = false.
+Proof.
+  induction o as [|x o IH]; [reflexivity|]. cbn [forallb]. intros H. apply andb_prop in H. destruct H as [A B].
+  unfold tls_out; cbn [existsb]. unfold nt in A. apply negb_true_iff in A. rewrite A. exact (IH B).
+Qed.
+Ltac nt_fin := cbn [fst snd]; rewrite ?forallb_app; repeat match goal with H : forallb nt _ = true |- _ => rewrite H end; try reflexivity.
+Lemma nt_conn_disconnect : forall s, forallb nt (snd (conn_disconnect s)) = true.
+Proof. intros; name_result; unfold conn_disconnect, ret; cases; leaf; reflexivity. Qed.
+Lemma nt_auth : forall fuel n s, forallb nt (snd (auth fuel n s)) = true.
+Proof.
+  induction fuel; intros; name_result; cbn [auth]; unfold ret; cases; leaf; try reflexivity;
+    auto using nt_conn_disconnect.
+Qed.
+Lemma nt_call_timed : forall k n s, forallb nt (snd (fst (call_timed k n s))) = true.
+Proof.
+  intros k; destruct k; intros; name_result; unfold call_timed; cases; leaf; try reflexivity;
+    auto using nt_conn_disconnect, nt_auth.
+Qed.
+Lemma nt_visit_timed : forall n r k, forallb nt (snd r) = true -> forallb nt (snd (visit_timed n r k)) = true.
+Proof.
+  intros n [s o] k H. cbn [snd] in H. name_result. unfold visit_timed. cases; leaf; auto.
+  all: rewrite forallb_app, H, nt_call_timed; reflexivity.
+Qed.
+Lemma nt_fire_timed : forall n s, forallb nt (snd (fire_timed n s)) = true.
+Proof.
+  intros; name_result; unfold fire_timed, ret; cases; leaf; try reflexivity.
+  apply (fold_left_inv (fun r => forallb nt (snd r) = true)); [intros; apply nt_visit_timed; auto | reflexivity].
+Qed.
+Lemma nt_quiet : forall o, forallb quiet o = true -> forallb nt o = true.
+Proof.
+  induction o as [|x o IH]; cbn; auto. intros H. apply andb_prop in H. destruct H as [A B].
+  rewrite IH; auto. destruct x as [| | | |[|]| | | | | | | | |]; cbn in *; auto; discriminate.
+Qed.
+Lemma nt_connect_next : forall n s, forallb nt (snd (fst (connect_next n s))) = true.
+Proof.
+  intros. name_result. unfold connect_next. pose proof (quiet_sock_connect (cands s)) as Q.
+  destruct (sock_connect (cands s)) as [oo [[k r]|]]; cbn [fst] in Q; leaf; cbn; apply nt_quiet; exact Q.
+Qed.
+Lemma nt_ph_watch : forall n s, forallb nt (snd (ph_watch n s)) = true.
+Proof.
+  intros; name_result; unfold ph_watch, ret; cases; leaf; try reflexivity; auto using nt_connect_next.
+  rewrite forallb_app, nt_connect_next. reflexivity.
+Qed.
+Lemma nt_send_phase : forall s, forallb nt (snd (send_phase s)) = true.
+Proof.
+  intros; name_result; unfold send_phase, ret; cases; leaf; try reflexivity;
+    rewrite ?forallb_app, ?nt_conn_disconnect, ?andb_true_r;
+    apply forallb_forall; intros x Hx; apply in_map_iff in Hx; destruct Hx as (y & <- & _); reflexivity.
+Qed.
+
+Lemma tls_out_app : forall a b, tls_out (a ++ b) = tls_out a || tls_out b.
+Proof. intros; unfold tls_out; apply existsb_app. Qed.
+
+Lemma restart_run_once : forall n rd s,
+  tls_out (snd (run_once n rd s)) = true -> Rst (fst (run_once n rd s)).
+Proof.
+  intros n rd s.
+  apply (run_once_ind
+           (fun _ o => tls_out o = false) (fun _ o => tls_out o = false) (fun _ o => tls_out o = false)
+           (fun _ o => tls_out o = false)
+           (fun s o => tls_out o = true -> Rst s) (fun s o => tls_out o = true -> Rst s)
+           (fun s o => tls_out o = true -> Rst s)).
+  - intros _ H; discriminate.
+  - intros _. apply nt_tls_out, nt_send_phase.
+  - intros s1 o H H'; congruence.
+  - auto.
+  - intros s1 o H. rewrite tls_out_app, H, (nt_tls_out _ (nt_fire_timed _ _)). reflexivity.
+  - intros s1 o H H'; congruence.
+  - intros s1 o H. rewrite tls_out_app, H, (nt_tls_out _ (nt_ph_watch _ _)). reflexivity.
+  - intros s1 o H H'. rewrite tls_out_app, H in H'. discriminate.
+  - intros s1 o H H'. rewrite tls_out_app, H in H'. cbn [orb] in H'.
+    destruct (Tr_ph_io n s1 s1 [] (Tr_refl s1)) as [(C & E & Eq)|T].
+    + rewrite Eq in *. pose proof (Tr_conn_established n _ _ _ (Tr_refl (set_st Connected s1))) as T.
+      cbn [app] in T. apply (tr_restart _ _ _ T). exact H'.
+    + cbn [app] in T. apply (tr_restart _ _ _ T). exact H'.
+  - auto.
+  - intros s1 o H H'. pose proof (Tr_fire_timed n _ _ _ (Tr_refl s1)) as T. cbn [app] in T.
+    rewrite tls_out_app in H'. destruct (tls_out o) eqn:E.
+    + apply (Rst_Fr s1); [auto | apply (tr_fr _ _ _ T)].
+    + apply (tr_restart _ _ _ T). exact H'.
+  - intros s1 o H H'. apply H. rewrite tls_out_app in H'. cbn in H'. rewrite orb_false_r in H'. exact H'.
+Qed.
+
+(* step-level helpers *)
+Lemma step_eq : forall s o, step s o = (note_outs (snd (step0 s o)) (fst (step0 s o)), snd (step0 s o)).
+Proof. intros; unfold step; destruct (step0 s o); reflexivity. Qed.
+Lemma check_run_inv : forall (ok : state -> op -> state -> list out -> bool) (Inv : state -> Prop),
+  (forall s o, Inv s -> Inv (fst (step s o))) ->
+  (forall s o, Inv s -> ok s o (fst (step s o)) (snd (step s o)) = true) ->
+  forall ops s, Inv s -> check_run ok s ops = true.
+Proof.
+  intros ok Inv Hp Ho. induction ops as [|o r IH]; intros s Hs; cbn [check_run]; auto.
+  specialize (Hp s o Hs). specialize (Ho s o Hs). destruct (step s o) as [s' outs]. cbn [fst snd] in *.
+  rewrite Ho. cbn. auto.
+Qed.
+
+Lemma nt_conn_connect : forall n t s, forallb nt (snd (fst (conn_connect n t s))) = true.
+Proof.
+  intros. name_result. unfold conn_connect.
+  destruct (st s); cbv zeta; [ | leaf; reflexivity ..].
+  match goal with |- context [sock_connect ?c] => pose proof (quiet_sock_connect c) as Q; destruct (sock_connect c) as [oo [[k r]|]] end;
+    cbn [fst] in Q; leaf; apply nt_quiet; exact Q.
+Qed.
+Lemma nt_connect_client : forall n s, forallb nt (snd (fst (connect_client n s))) = true.
+Proof. intros; name_result; unfold connect_client; cases; leaf; try reflexivity; apply nt_conn_connect. Qed.
+Lemma nt_connect_component : forall n s, forallb nt (snd (fst (connect_component n s))) = true.
+Proof. intros; name_result; unfold connect_component; cases; leaf; try reflexivity; apply nt_conn_connect. Qed.
+
+Lemma restart_step0 : forall s op, tls_out (snd (step0 s op)) = true -> Rst (fst (step0 s op)).
+Proof.
+  intros s op. unfold step0. destruct (crashed s); [intros; discriminate|].
+  destruct op; try apply restart_run_once;
+    intros H; exfalso; revert H; name_result; unfold ret; cases; leaf; try discriminate;
+    rewrite ?tls_out_app, ?(nt_tls_out _ (nt_connect_client _ _)), ?(nt_tls_out _ (nt_connect_component _ _)),
+      ?(nt_tls_out _ (nt_conn_disconnect _)); discriminate.
+Qed.
+
+Theorem restart_ok : forall ops, check_run ok_restart init_state ops = true.
+Proof.
+  intros ops. apply (check_run_inv ok_restart (fun _ => True)); auto.
+  intros s o _. rewrite step_eq. cbn [fst snd]. unfold ok_restart.
+  pose proof (restart_step0 s o) as R. fold is_tls. fold (tls_out (snd (step0 s o))).
+  destruct (tls_out (snd (step0 s o))); [|reflexivity]. specialize (R eq_refl). cbn [negb orb].
+  unfold note_outs. sproj. destruct (st (fst (step0 s o))) eqn:E; auto.
+  destruct (R E) as [H|[H|[H1 H2]]]; rewrite ?H, ?H1, ?H2, ?orb_true_r; reflexivity.
+Qed.
